@@ -440,7 +440,14 @@ Definition rdm_reconstruct (st : rdm_st) (id : N) (start : Z) : rdm_st * N :=
         (rdm_buf_wr st9 0 (hdr ++ concat (wm_rev acc)), 0).
 
 (* ================= jls_core_rd_fsr_data0 ================= *)
-(* (state, rc, the block was reconstructed) *)
+(* the end of jls_core_rd_fsr_data0, once chunk_sample_id is known: (state, rc, the block was reconstructed) *)
+Definition rdm_data0_finish (st : rdm_st) (id : N) (start chunk_sample_id : Z) : rdm_st * N * bool :=
+  let '(st6, rc6, omitted) := if (start <? chunk_sample_id)%Z then let '(s, r) := rdm_reconstruct st id start in (s, r, true)
+                              else (st, 0, false) in
+  if negb (rc6 =? 0) then (st6, rc6, omitted)
+  else
+    let '(st7, esb) := rdm_buf_u st6 (Z.of_N OFFSETOF_payload_entry_size_bits) 2 in
+    if negb (esb =? dt_bits (sg_dtype (rdm_def st id))) then (st7, JLS_ERROR_PARAMETER_INVALID, omitted) else (st7, 0, omitted).
 Definition rdm_rd_fsr_data0 (st : rdm_st) (id : N) (start : Z) : rdm_st * N * bool :=
   let '(st1, rc1) := rdm_rd_fsr_level1 st id start in
   if negb (rc1 =? 0) then (st1, rc1, false)
@@ -453,14 +460,7 @@ Definition rdm_rd_fsr_data0 (st : rdm_st) (id : N) (start : Z) : rdm_st * N * bo
       let idx_entry := Z.quot d1 (Z.of_N (sg_spd d)) in
       let '(st4, b2) := rdm_idx_rd st3 (Z.of_N SIZEOF_payload_header + 8 * idx_entry)%Z 8 in
       let offset := fm_dec b2 in
-      let cont (st5 : rdm_st) (chunk_sample_id : Z) : rdm_st * N * bool :=
-        let '(st6, rc6, omitted) := if (start <? chunk_sample_id)%Z then let '(s, r) := rdm_reconstruct st5 id start in (s, r, true)
-                                    else (st5, 0, false) in
-        if negb (rc6 =? 0) then (st6, rc6, omitted)
-        else
-          let '(st7, esb) := rdm_buf_u st6 (Z.of_N OFFSETOF_payload_entry_size_bits) 2 in
-          if negb (esb =? dt_bits (sg_dtype d)) then (st7, JLS_ERROR_PARAMETER_INVALID, omitted) else (st7, 0, omitted) in
-      if offset =? 0 then cont st4 (rdm_i64_max - 2147483647)%Z
+      if offset =? 0 then rdm_data0_finish st4 id start (rdm_i64_max - 2147483647)%Z      (* omitted: "assume full chunk" *)
       else
         let '(st5, rc5) := rdm_seek st4 offset in
         if negb (rc5 =? 0) then (st5, JLS_ERROR_NOT_FOUND, false)
@@ -468,7 +468,7 @@ Definition rdm_rd_fsr_data0 (st : rdm_st) (id : N) (start : Z) : rdm_st * N * bo
           let '(st6, rc6) := rdm_rd_chunk st5 in
           if rc6 =? JLS_ERROR_EMPTY then (st6, JLS_ERROR_NOT_FOUND, false)
           else if negb (rc6 =? 0) then (st6, rc6, false)
-          else let '(st7, ts) := rdm_buf_i64 st6 0 in cont st7 ts.
+          else let '(st7, ts) := rdm_buf_i64 st6 0 in rdm_data0_finish st7 id start ts.
 
 (* ================= jls_core_fsr ================= *)
 (* one call of jls_bit_copy of the copy loop (ghost): source bytes, source bit, destination bit, bit count, from a
@@ -583,12 +583,12 @@ Definition rdm_ts_seek (st : rdm_st) (id level track_type : N) (t : Z) : rdm_st 
 (* ================= jls_core_annotations ================= *)
 Definition rdm_anno_data_off : N := OFFSETOF_annotation_data_size + 4.     (* offsetof(struct jls_annotation_s, data) *)
 Record rdm_anno := { rdm_an_ts : Z; rdm_an_type : N; rdm_an_stype : N; rdm_an_group : N; rdm_an_y : N; rdm_an_size : N; rdm_an_data : list N }.
-(* the fixed part of an annotation as the callback sees it, from the first rdm_anno_data_off bytes of the buffer;
-   ts = the timestamp after "annotation->timestamp -= sample_id_offset" *)
-Definition rdm_anno_of (ts : Z) (fixed data : list N) : rdm_anno :=
-  {| rdm_an_ts := ts; rdm_an_type := fm_u8_at OFFSETOF_annotation_type fixed; rdm_an_stype := fm_u8_at (OFFSETOF_annotation_type + 1) fixed;
-     rdm_an_group := fm_u8_at (OFFSETOF_annotation_type + 2) fixed; rdm_an_y := fm_u32_at OFFSETOF_annotation_y fixed;
-     rdm_an_size := fm_u32_at OFFSETOF_annotation_data_size fixed; rdm_an_data := data |}.
+(* an annotation as the callback sees it: fx = the bytes [OFFSETOF_annotation_type, rdm_anno_data_off) of the buffer (annotation_type,
+   storage_type, group_id, rsv, y, data_size), ts = the timestamp after "annotation->timestamp -= sample_id_offset" *)
+Definition rdm_anno_size (fx : list N) : N := fm_u32_at (OFFSETOF_annotation_data_size - OFFSETOF_annotation_type) fx.
+Definition rdm_anno_of (ts : Z) (fx data : list N) : rdm_anno :=
+  {| rdm_an_ts := ts; rdm_an_type := fm_u8_at 0 fx; rdm_an_stype := fm_u8_at 1 fx; rdm_an_group := fm_u8_at 2 fx;
+     rdm_an_y := fm_u32_at (OFFSETOF_annotation_y - OFFSETOF_annotation_type) fx; rdm_an_size := rdm_anno_size fx; rdm_an_data := data |}.
 (* "while (pos)".  items newest first *)
 Fixpoint rdm_anno_loop (fuel : nat) (st : rdm_st) (sid0 : Z) (stopf : N -> bool) (pos : N) (items : list rdm_anno) (n : N)
   : rdm_st * N * list rdm_anno :=
@@ -606,12 +606,13 @@ Fixpoint rdm_anno_loop (fuel : nat) (st : rdm_st) (sid0 : Z) (stopf : N -> bool)
           let h := wm_ck_hdr (rp_cur (rdm_io st2)) in
           if negb (fm_tag h =? JLS_TAG_TRACK_ANNOTATION_DATA) then (st2, JLS_ERROR_NOT_FOUND, items)
           else
+            (* the callback reads the fields and the data after the in-place update of the timestamp; they do not overlap it *)
             let '(st3, ts0) := rdm_buf_i64 st2 0 in
             let '(st4, ts) := rdm_i64 st3 (ts0 - sid0)%Z in
-            let st5 := rdm_buf_wr st4 0 (fm_enc_i64 ts) in
-            let '(st6, fixed) := rdm_buf_rd st5 0 rdm_anno_data_off in
-            let '(st7, data) := rdm_buf_rd st6 (Z.of_N rdm_anno_data_off) (fm_u32_at OFFSETOF_annotation_data_size fixed) in
-            let items1 := rdm_anno_of ts fixed data :: items in
+            let '(st5, fx) := rdm_buf_rd st4 (Z.of_N OFFSETOF_annotation_type) (rdm_anno_data_off - OFFSETOF_annotation_type) in
+            let '(st6, data) := rdm_buf_rd st5 (Z.of_N rdm_anno_data_off) (rdm_anno_size fx) in
+            let st7 := rdm_buf_wr st6 0 (fm_enc_i64 ts) in
+            let items1 := rdm_anno_of ts fx data :: items in
             if stopf (n + 1) then (st7, 0, items1)
             else rdm_anno_loop fu st7 sid0 stopf (fm_item_next h) items1 (n + 1)
     end.
